@@ -40,6 +40,8 @@ func init() {
 			{Name: "open a different path than the one that exists", File: "set.go", Old: "return s.loadFromFile(canonicalPath, cacheAfterParsing)", New: "return s.loadFromFile(templatePath, cacheAfterParsing)", Rule: "C16.ext"},
 			{Name: "cache under the canonical path of another variable", File: "set.go", Old: "s.cache.Put(templatePath, t)", New: "s.cache.Put(templatePath+\".jet\", t)", Rule: "C16.put"},
 			{Name: "a second Put on the error path", File: "set.go", Old: "\treturn t, err\n}\n\nfunc (s *Set) getTemplateFromCache", New: "\tif err != nil {\n\t\ts.cache.Put(templatePath, nil)\n\t}\n\treturn t, err\n}\n\nfunc (s *Set) getTemplateFromCache", Rule: "C16.put"},
+			{Name: "loader fault on the first existing candidate falls through to the next extension (agent seed C16/3)", File: "set.go", Old: "\t\t\treturn s.loadFromFile(canonicalPath, cacheAfterParsing)", New: "\t\t\tt, err = s.loadFromFile(canonicalPath, cacheAfterParsing)\n\t\t\tif t == nil && err != nil {\n\t\t\t\tcontinue\n\t\t\t}\n\t\t\treturn t, err", Rule: "C16.ext"},
+			{Name: "equivalent: hit branch assigns the results and returns them", File: "set.go", Old: "\t\t\treturn s.loadFromFile(canonicalPath, cacheAfterParsing)", New: "\t\t\tt, err = s.loadFromFile(canonicalPath, cacheAfterParsing)\n\t\t\treturn t, err", Rule: "-"},
 			{Name: "last extension wins (no early return)", File: "set.go", Old: "\t\tif t := s.cache.Get(canonicalPath); t != nil {\n\t\t\treturn t, true\n\t\t}\n\t}\n\treturn nil, false", New: "\t\tif c := s.cache.Get(canonicalPath); c != nil {\n\t\t\tt, ok = c, true\n\t\t}\n\t}\n\treturn t, ok", Rule: "C16.ext"},
 		},
 	})
@@ -663,28 +665,68 @@ func (c16) extLoop(c *an.Ctx, f *an.Fn, rs *ast.RangeStmt) {
 		}
 	}
 	c.Check(okCand, "C16.ext", key+"/candidate", lookup.Pos(), "candidate is <path parameter> + <extension>", "the candidate looked up is not <path parameter> + <current extension>")
-	// the hit branch returns (first existing wins): the statement containing the lookup is an if whose body ends in return
-	first := false
-	for _, st := range rs.Body.List {
-		is, ok := st.(*ast.IfStmt)
-		if !ok {
-			continue
-		}
-		contains := false
-		ast.Inspect(is, func(n ast.Node) bool {
-			if n == ast.Node(lookup) {
-				contains = true
-			}
+	// first existing wins: once a candidate was found, no further candidate is probed — on any path,
+	// including failures of the load that follows (typestate over the loop: HIT is absorbing up to return)
+	hitVars := map[types.Object]bool{}
+	an.InspectOwn(f, func(n ast.Node) bool {
+		as, ok := n.(*ast.AssignStmt)
+		if !ok || len(as.Rhs) != 1 || an.Unparen(as.Rhs[0]) != ast.Expr(lookup) {
 			return true
-		})
-		if !contains && is.Init == nil {
-			continue
 		}
-		if len(is.Body.List) > 0 {
-			if _, ok := is.Body.List[len(is.Body.List)-1].(*ast.ReturnStmt); ok {
-				first = true
+		for _, l := range as.Lhs {
+			if id, ok := l.(*ast.Ident); ok && id.Name != "_" {
+				hitVars[an.ObjOf(info, id)] = true
 			}
 		}
+		return true
+	})
+	isHit := func(cond ast.Expr, val bool) bool {
+		e := an.Unparen(cond)
+		want := true
+		if b, ok := e.(*ast.BinaryExpr); ok && (b.Op == token.NEQ || b.Op == token.EQL) {
+			x, y := an.Unparen(b.X), an.Unparen(b.Y)
+			if an.Str(y) != "nil" {
+				x, y = y, x
+			}
+			if an.Str(y) != "nil" {
+				return false
+			}
+			e, want = x, b.Op == token.NEQ
+		}
+		if e == ast.Expr(lookup) {
+			return val == want
+		}
+		if id, ok := e.(*ast.Ident); ok && hitVars[an.ObjOf(info, id)] {
+			return val == want
+		}
+		return false
 	}
-	c.Check(first, "C16.ext", key+"/first-wins", rs.Pos(), "the loop returns at the first hit", "the loop over the extensions does not return at the first hit: a later extension can win")
+	first := true
+	nLookups := 0
+	var trailBad []string
+	hooks := an.Hooks{
+		Branch: func(x *an.Explorer, cond ast.Expr, val bool, st *an.State) {
+			if isHit(cond, val) {
+				st.Set("hit", "1")
+			}
+		},
+		Call: func(x *an.Explorer, call *ast.CallExpr, st *an.State) {
+			if call == lookup {
+				nLookups++
+				if st.Get("hit") != "" && first {
+					first = false
+					trailBad = an.Facts(st)
+				}
+			}
+		},
+	}
+	xx := c.P.NewExplorer(f, hooks)
+	xx.Run(nil)
+	c.States += xx.Visited
+	if nLookups == 0 || xx.Undecided != "" {
+		c.Undecided("C16.ext", key+"/first-wins", rs.Pos(), "the candidate lookup was not reached by the exploration %s", xx.Undecided)
+		return
+	}
+	_ = trailBad
+	c.Check(first, "C16.ext", key+"/first-wins", rs.Pos(), "the loop returns at the first hit", "after a candidate was found the loop can go on to probe a later extension: a later extension can win (e.g. when loading the first existing one fails)")
 }
